@@ -38,14 +38,23 @@ EXTENDS Integers, Sequences, FiniteSets, TLC
 CONSTANTS Names,      \* the identifiers programs may use (strings)
           Chars,      \* Chars[n]: the characters of name n, e.g. <<"v", "a">>
           MaxLines,
-          MaxDepth
+          MaxDepth,
+          HOrder,     \* the helper module h.py defines the names of HOrder, one per line, in this order ...
+          HOffsets,   \* ... after hoff \in HOffsets other lines
+          Kinds,      \* the line kinds programs may use (a focus for simulation runs)
+          Preludes    \* the programs start with one of these line sequences ({<<>>}: anything)
 
-VARIABLES lines
+VARIABLES lines,
+          hoff        \* number of lines of h.py before its first definition
+
+\* the line of h.py on which name n is defined
+HLine(n) == hoff + (CHOOSE k \in DOMAIN HOrder : HOrder[k] = n)
 
 Line(d, k, n, u) == [d |-> d, k |-> k, n |-> n, u |-> u]
-Header(l) == l.k \in {"def", "class"}
+Header(l) == l.k \in {"def", "class"}          \* opens a scope
+Opens(l) == l.k \in {"def", "class", "try"}     \* must be followed by a deeper line
 
-LinesAt(d) ==
+AllLinesAt(d) ==
   {Line(d, "bind", n, "") : n \in Names}
   \cup {Line(d, "bindu", n, u) : n \in Names, u \in Names}
   \cup {Line(d, "use", "", u) : u \in Names}
@@ -54,37 +63,55 @@ LinesAt(d) ==
   \cup {Line(d, "attr", n, u) : n \in Names, u \in Names}
   \cup {Line(d, "ret", "", u) : u \in Names}
   \cup {Line(d, "pass", "", "")}
+  \cup {Line(d, "imp", n, "") : n \in Names}                    \* from h import n
+  \cup {Line(d, "kw", n, u) : n \in Names, u \in Names}          \* n(u=1)
+  \cup {Line(d, "try", "", ""), Line(d, "fin", "", "")}          \* try:   /   finally: pass
+LinesAt(d) == {l \in AllLinesAt(d) : l.k \in Kinds}
 
 Max(S) == CHOOSE x \in S : \A y \in S : y <= x
 Min(S) == CHOOSE x \in S : \A y \in S : x <= y
 
 (* ---------------- scope structure of a line sequence ---------------- *)
 \* the header line whose scope line i sits in directly; 0 = the module
+\* (a try: line opens a block, not a scope)
+RECURSIVE Encl(_, _)
 Encl(ls, i) ==
-  IF ls[i].d = 0 THEN 0 ELSE Max({j \in 1..(i - 1) : ls[j].d < ls[i].d})
+  IF ls[i].d = 0 THEN 0
+  ELSE LET j == Max({k \in 1..(i - 1) : ls[k].d < ls[i].d})
+       IN IF ls[j].k = "try" THEN Encl(ls, j) ELSE j
 ScopeKind(ls, s) == IF s = 0 THEN "module" ELSE ls[s].k
 Parent(ls, s) == Encl(ls, s)
 LinesOf(ls, s) == {i \in 1..Len(ls) : Encl(ls, i) = s}
 Params(ls, s) == IF s > 0 /\ ls[s].k = "def" /\ ls[s].u # "" THEN {ls[s].u} ELSE {}
-BindsAt(ls, i) == IF ls[i].k \in {"bind", "bindu", "def", "class"} THEN {ls[i].n} ELSE {}
+BindsAt(ls, i) == IF ls[i].k \in {"bind", "bindu", "def", "class", "imp"} THEN {ls[i].n} ELSE {}
 Bound(ls, s) == UNION {BindsAt(ls, i) : i \in LinesOf(ls, s)} \cup Params(ls, s)
 \* the lines on which n is bound in scope s (a parameter: the def line)
 BindLines(ls, s, n) ==
   {i \in LinesOf(ls, s) : n \in BindsAt(ls, i)} \cup (IF n \in Params(ls, s) THEN {s} ELSE {})
 FirstLine(ls, s, n) == Min(BindLines(ls, s, n))
 
+\* the innermost try: whose block is still open at the end of ls (0: none)
+OpenTry(ls) ==
+  LET open == {j \in 1..Len(ls) : ls[j].k = "try" /\ \A k \in (j + 1)..Len(ls) : ls[k].d > ls[j].d}
+  IN IF open = {} THEN 0 ELSE Max(open)
+
 \* well-formed extension of a program by one line
 CanAppend(ls, l) ==
   /\ Len(ls) < MaxLines
   /\ l.d <= MaxDepth
-  /\ Header(l) => l.d < MaxDepth
+  /\ Opens(l) => l.d < MaxDepth
   /\ IF ls = <<>> THEN l.d = 0
-     ELSE IF Header(ls[Len(ls)]) THEN l.d = ls[Len(ls)].d + 1 ELSE l.d <= ls[Len(ls)].d
+     ELSE IF Opens(ls[Len(ls)]) THEN l.d = ls[Len(ls)].d + 1 ELSE l.d <= ls[Len(ls)].d
+  \* a try: block is closed by  finally: pass  as soon as the indentation comes back to it
+  /\ LET t == OpenTry(ls)
+     IN IF t # 0 /\ l.d <= ls[t].d THEN l = Line(ls[t].d, "fin", "", "") ELSE l.k # "fin"
+  \* n(u=1) only where some  def n(u)  has been written above
+  /\ l.k = "kw" => \E j \in 1..Len(ls) : ls[j].k = "def" /\ ls[j].n = l.n /\ ls[j].u = l.u
   /\ l.k = "ret" => LET ls2 == Append(ls, l) IN ScopeKind(ls2, Encl(ls2, Len(ls2))) = "def"
   \* print(n.u) only where some class n has been written above (whether n then
   \* denotes that class is decided by AttrClass)
   /\ l.k = "attr" => \E j \in 1..Len(ls) : ls[j].k = "class" /\ ls[j].n = l.n
-IsProgram(ls) == ls # <<>> /\ ~Header(ls[Len(ls)])
+IsProgram(ls) == ls # <<>> /\ ~Opens(ls[Len(ls)]) /\ OpenTry(ls) = 0
 
 (* ---------------- resolution and visibility ---------------- *)
 NoScope == 0 - 1
@@ -141,12 +168,24 @@ AttrClass(ls, i) ==
              THEN CHOOSE c \in bl : TRUE ELSE NoScope
 Attrs(ls, i) == IF ls[i].k = "attr" /\ AttrClass(ls, i) # NoScope THEN Bound(ls, AttrClass(ls, i)) ELSE {}
 
+\* the function whose parameter the keyword of  n(u=1)  on line i names, if determined: n resolves,
+\* is bound exactly once there, by  def n(u)
+KwFunc(ls, i) ==
+  LET r == Resolve(ls, Encl(ls, i), ls[i].n)
+  IN IF r = NoScope THEN NoScope
+     ELSE LET bl == BindLines(ls, r, ls[i].n)
+          IN IF Cardinality(bl) = 1 /\ (\E c \in bl : c > 0 /\ c # r /\ ls[c].k = "def" /\ ls[c].n = ls[i].n
+                                                       /\ ls[c].u = ls[i].u)
+                /\ ~(ScopeKind(ls, Encl(ls, i)) = "class" /\ r = Encl(ls, i) /\ FirstLine(ls, r, ls[i].n) > i)
+             THEN CHOOSE c \in bl : TRUE ELSE NoScope
+
 \* where an identifier occurrence refers to: scope and lines of the binding
 RefScope(ls, id) ==
   LET i == id.line
       l == ls[i]
-  IN IF id.role = "n" /\ l.k \in {"bind", "bindu", "def", "class"} THEN Encl(ls, i)      \* a binding occurrence
+  IN IF id.role = "n" /\ l.k \in {"bind", "bindu", "def", "class", "imp"} THEN Encl(ls, i)   \* a binding occurrence
      ELSE IF id.role = "u" /\ l.k = "def" THEN i                                        \* the parameter
+     ELSE IF id.role = "u" /\ l.k = "kw" THEN KwFunc(ls, i)                              \* keyword argument
      ELSE IF id.role = "u" /\ l.k = "attr"
        THEN (IF AttrClass(ls, i) # NoScope /\ l.u \in Bound(ls, AttrClass(ls, i)) THEN AttrClass(ls, i) ELSE NoScope)
      ELSE Resolve(ls, Encl(ls, i), id.name)
@@ -157,14 +196,24 @@ Determined(ls, id) ==
       r == RefScope(ls, id)
   IN /\ r # NoScope
      /\ ~(ScopeKind(ls, s) = "class" /\ r = s /\ FirstLine(ls, r, id.name) > i
-          /\ ~(id.role = "n" /\ ls[i].k \in {"bind", "bindu", "def", "class"}))
+          /\ ~(id.role = "n" /\ ls[i].k \in {"bind", "bindu", "def", "class", "imp"}))
+     \* a name that the scope both imports and binds otherwise has no single home
+     /\ LET bl == BindLines(ls, r, id.name)
+            imps == {b \in bl : b > 0 /\ ls[b].k = "imp" /\ ls[b].n = id.name}
+        IN imps = {} \/ imps = bl
+\* the binding is an import: the definition is in h.py, on line HLine(name)
+Imported(ls, id) ==
+  \E b \in BindLines(ls, RefScope(ls, id), id.name) : b > 0 /\ ls[b].k = "imp" /\ ls[b].n = id.name
 DefLines(ls, id) == BindLines(ls, RefScope(ls, id), id.name)
 DefLine(ls, id) == Min(DefLines(ls, id))
 
 (* ---------------- state machine: programs grow line by line ---------------- *)
-Init == lines = <<>>
-Next == \E d \in 0..MaxDepth : \E l \in LinesAt(d) : CanAppend(lines, l) /\ lines' = Append(lines, l)
-Spec == Init /\ [][Next]_lines
+Init == lines \in Preludes /\ hoff \in HOffsets
+\* (the quantifiers outermost: TLC then treats every (d, l) as an action of its own, and simulation
+\* checks - and exports - only the states it actually visits)
+Next == \E d \in 0..MaxDepth : \E l \in LinesAt(d) :
+           CanAppend(lines, l) /\ lines' = Append(lines, l) /\ UNCHANGED hoff
+Spec == Init /\ [][Next]_<<lines, hoff>>
 
 (* ---------------- what TLC checks ---------------- *)
 TypeOK == Len(lines) <= MaxLines /\ \A i \in 1..Len(lines) : lines[i].d \in 0..MaxDepth
@@ -186,7 +235,7 @@ LaterLocalsOnlyHides ==
 \* and takes away at most the name that line binds; what has to be offered
 \* without the line may be offered with it
 CutOnlyShrinks ==
-  \A i \in 1..Len(lines) : ~Header(lines[i]) =>
+  \A i \in 1..Len(lines) : ~(Opens(lines[i]) \/ lines[i].k = "fin") =>
      \A later \in BOOLEAN :
         /\ VisibleAt(Cut(lines, i), i, later) \subseteq VisibleAt(lines, i, later)
         /\ VisibleAt(lines, i, later) \ VisibleAt(Cut(lines, i), i, later) \subseteq BindsAt(lines, i)
